@@ -256,7 +256,7 @@ template<class T> struct Subject
    ~Subject() {delete q;}
 
    // measured, not assumed: the capacity of the inline buffer, of the array EnsureSize(inline+1) allocates, of the array that adding inline+1 items grows to
-   static uint32 InlineCap() {static uint32 c = 0; if (c == 0) {Q x; (void) x.AddTail(I::Make(1)); c = x.GetNumAllocatedItemSlots();} return c;}
+   static uint32 InlineCap() {static uint32 c = 0; if (c == 0) {Q x; (void) x.EnsureSize(1); c = x.GetNumAllocatedItemSlots();} return c;}
    static void MeasureCaps(Coverage & cov)
    {
       const uint32 s = InlineCap(); cov.inlineCap = s; cov.caps.clear(); cov.caps.push_back(s);
@@ -838,7 +838,7 @@ template<class T> struct RandomDriver
       const Want w = wants[(wantCursor++) % wants.size()]; const uint32 cap = w.cap, s = cov.inlineCap;
       if (Pos().cap != cap) {
          Do(OP_Clear, 1);
-         if (cap == s) Do(OP_AddTail, 0, 0, 0, V());
+         if (cap == s) Do(OP_EnsureSize, 1);
          else if ((cov.caps.size() > 1)&&(cap == cov.caps[1])) Do(OP_EnsureSize, (int) s+1);
          else {for (uint32 i=0; (i<=s)&&(!stop); i++) Do(OP_AddTail, 0, 0, 0, V());}
          if (Pos().cap != cap) return;
